@@ -13,29 +13,40 @@ from .common import Run, guarded, list_s, opt_s, run_driver
 
 META = {
     "claimed": True,
-    "text": "Lean 4 theorems about hand-written transition systems of DelayedS3Writer (one atomic step per "
-    "shared operation: read/write of uploadId, get_client, lock acquire/release, Variable get/set/delete, "
-    "storage-client call): for ANY number of threads/workers and EVERY schedule (induction over the schedule) at "
-    "most one multipart upload is created, no thread fails, every upload_part/complete call carries the one id, "
-    "the lock is held exactly by the thread inside the critical section; every complete schedule ends with all "
-    "parts uploaded (no deadlock, bounded length) - for the in-process variant (after the F5 repair; the code as "
-    "found provably fails on a concrete schedule) and the cluster variant (shared Variable + Lock).  MPUFileSink."
-    "finalise = concatenation of the listed parts in the given order and removal of the parts directory; limit "
-    "accessors return their own keyword or default with max > min.  The models are tied to /repo on every run by "
-    "running the real code under a deterministic step-level scheduler (all interleavings of 2 threads at the "
-    "finest granularity, 3 threads with context switches at lock/client/Variable operations, random fine-grained "
-    "3-thread schedules) and diffing per schedule the sequence of shared operations, client calls, upload ids and "
-    "exceptions with the Lean model; the sink and the limits are compared on exhaustive small configurations; "
-    "an independent oracle evaluates the property on every real run.",
+    "text": "Lean 4 theorems about hand-written transition systems of DelayedS3Writer._ensure_init/__call__/finalise "
+    "and MultiPartUpload.initiate/write_part/finalise (one atomic step per shared operation: read/write of uploadId, "
+    "get_client, lock acquire/release, Variable get/set/delete, storage-client call): for ANY number of threads and "
+    "workers and EVERY schedule (invariant proved by induction over the schedule; stutter steps of blocked/finished "
+    "threads included) at most one multipart upload is created, no thread fails, every create/upload_part/complete "
+    "call carries the one id, the lock is held exactly by the thread inside the critical section; every complete "
+    "schedule ends with all threads returned and their parts uploaded (no deadlock), and schedules have at most "
+    "12 (18) effective steps per thread - for the in-process variant (after the F5 repair; the code as found "
+    "provably fails on a concrete 12-step schedule, local_once_cex) and for the cluster variant (shared Variable + "
+    "Lock, per-worker copies).  MPUFileSink.finalise leaves the concatenation of the listed parts in the given "
+    "order (empty parts anywhere, any part numbers), removes part files and directory, keep_parts keeps them; "
+    "limit accessors return their own keyword or default with max > min (F17/F4 as _cex).  The models are tied to "
+    "/repo on every run by running the real code in real threads under a deterministic step-level scheduler and "
+    "diffing, per schedule, the sequence of shared operations of every thread, the client calls with their upload "
+    "ids, final ids/variable/lock and exceptions with the Lean model: quick = all 7 700 + 15 267 interleavings of "
+    "two first writes / a write and a racing finalise at the finest granularity, 3 threads and the cluster variant "
+    "with context switches at lock/client/Variable operations, random fine-grained 3-4-thread schedules (34 k "
+    "cases); thorough = 3 threads in both variants (about 510 k schedules).  Sink (every size vector over {0,1,3} "
+    "for 1..4 parts in both orders, random 1..6 parts with overwrites/permutations/subsets/duplicates/unknown "
+    "parts, parts_base placements, keep_parts) and limits (every subset of the four keywords; accessor list by "
+    "introspection of the PartsWriter protocol) are compared exactly; an independent two-sided oracle evaluates "
+    "the property on every real run.",
     "note": "Trusted: Lean kernel + {propext, Classical.choice, Quot.sound}; the fakes at the client boundary "
-    "(S3 client, distributed.get_client/Variable/Lock, the lock object in _s3._state) and the scheduler; "
-    "sequentially consistent execution of the steps.  Runtime behaviour the model cannot exhibit: CPython "
-    "Lock fairness, the real distributed Variable/Lock (no cluster in the sandbox), _safe_get timeouts (a "
-    "spurious None while the variable is set could initiate twice).  The cluster theorem holds until a finalise "
-    "has deleted the shared variable (a first write racing with a *finished* finalise can fail or initiate a "
-    "second upload - excluded by the task graph, which feeds finalise with the results of all writes).  "
-    "_ensure_init(final_write=True) has no caller and is not modelled.  Exhaustive enumeration is over the "
-    "stated thread counts only; larger configurations are covered by the theorems, not by the correspondence.",
+    "(S3 client, distributed.get_client/Variable/Lock, the lock object in _s3._state, an observable uploadId "
+    "attribute on a subclass that inherits all methods) and the scheduler; sequentially consistent execution of "
+    "the steps.  Runtime behaviour the model cannot exhibit: CPython Lock fairness, the real distributed "
+    "Variable/Lock (no cluster in the sandbox), _safe_get timeouts (a spurious None while the variable is set "
+    "could initiate twice).  The cluster theorem holds until a finalise has deleted the shared variable "
+    "(cleanup_client, its last action): a first write that starts after, or races with, a completed finalise can "
+    "fail or initiate a second upload (dist_after_delete_cex; observed on the real code) - excluded by mpu_write, "
+    "which feeds finalise with the results of all writes; such runs are compared with the model and judged only up "
+    "to the deletion.  _ensure_init(final_write=True) has no caller and is not modelled.  Exhaustive enumeration "
+    "covers the stated thread counts only; larger configurations are covered by the theorems, not by the "
+    "correspondence.  Until branch fix-C18 (F5, F4, F17) is merged the check reports these three defects on /repo.",
     "technique": "Lean 4 proof over hand model (transition system, invariant by induction over schedules) + "
     "differential correspondence with the real code under a deterministic scheduler",
     "design_ref": "DESIGN.md §4 C18",
@@ -144,7 +155,7 @@ def schedules(R: Run):
     for workers in ([0, 1, 1], [0, 0, 1], [0, 1, 2], [0, 0, 0]):
         exhaustive("dist", ["w1", "w2", "f"], workers, S.COARSE if R.quick else CW, "coarse-gated", gate=True)
     # a finalise racing with a first write: correspondence only (see META.note)
-    exhaustive("dist", ["w1", "f"], [0, 1], S.COARSE if R.quick else CW, "racing-fin", oracle=False)
+    exhaustive("dist", ["w1", "f"], [0, 1], S.COARSE if R.quick else NOGC, "racing-fin", oracle=False)
     exhaustive("dist", ["w1", "f"], [0, 0], S.COARSE if R.quick else CW, "racing-fin", oracle=False)
     if not R.quick:
         for workers in ([0, 1, 1], [0, 0, 0], [0, 1, 2]):
